@@ -26,6 +26,8 @@ BASE = [
     ["add_parameter", "p", {"v": "1/2"}],
     ["add_parameter", "q", {"ia": fn(["dd"], ["*", A(0), K(2)])}],
     ["add_variable", "z", {"ia": fn(["k"], ["+", A(0), K(1)])}],
+    # fixed when the cache is built, from the initial value of a variable
+    ["add_parameter", "px", {"ia": fn(["x"], ["+", A(0), K(1)])}],
     ["add_derived", "dp", fn(["k", "p"], ["+", A(0), A(1)])],
     ["add_derived", "dv", fn(["x", "dp"], ["*", A(0), A(1)])],
     ["add_reaction", "r1", {**fn(["x", "k"], ["*", A(0), A(1)]), "st": [["x", {"c": "-1"}], ["y", {"c": "1"}]]}],
@@ -52,7 +54,35 @@ QUERIES = [
 BATTERY = [["q", "init"], ["q", "classes"], ["q", "pvals"], ["q", "argsro", ["2", "3", "1"], "1"],
            ["q", "rhs", ["2", "3", "1"], "1"]]
 
+ALL = [True] * 8 + [False]
+ROWS = [["0", ["1", "2", "3"]], ["1/2", ["2", "1"]], ["2", ["3"]]]
+
+
+def FL(**kw):
+    """FLAGS with the given include_* switched (defaults of get_args)"""
+    names = ["time", "vars", "pars", "dpars", "dvars", "rxns", "survars", "surfluxes", "readouts"]
+    return [kw.get(n, d) for n, d in zip(names, ALL)]
+
+
+ONLY = lambda *on: [n in on for n in ["time", "vars", "pars", "dpars", "dvars", "rxns", "survars", "surfluxes", "readouts"]]  # noqa: E731
+
+# the public getters beyond QUERIES: name lists, get_arg_names / get_args with include_* flags, raw
+# stoichiometries, the three time-course forms, equality with a newly built model
+QUERIES2 = [
+    ["q", "names", "vars"], ["q", "names", "pars"], ["q", "names", "rxns"], ["q", "names", "readouts"],
+    ["q", "names", "surouts"], ["q", "names", "survars"], ["q", "names", "surrxns"], ["q", "names", "unused"],
+    ["q", "argnames", FL(readouts=True)], ["q", "argnames", ONLY("vars", "rxns", "surfluxes")],
+    ["q", "argnames", ONLY("dpars")], ["q", "argnames", ONLY("time", "dvars", "survars", "readouts")],
+    ["q", "argsf", ["2", "1", "3"], "1", ONLY("dpars", "dvars")], ["q", "argsf", None, "0", ONLY("time", "pars", "survars")],
+    ["q", "argsf", ["1", "2"], "1/2", ONLY("readouts", "rxns")], ["q", "argsf", ["1"], "0", FL(time=False, vars=False)],
+    ["q", "rawstoich", "y"], ["q", "rawstoich", "z"], ["q", "rawstoich", "nope"],
+    ["q", "argstc", ROWS, ALL], ["q", "argstc", ROWS[:2], ONLY("dvars", "readouts", "surfluxes")],
+    ["q", "fluxestc", ROWS], ["q", "rhstc", ROWS], ["q", "rhstc", ROWS[1:]],
+    ["q", "eq"],
+]
+
 V = lambda q: {"v": str(q)}  # noqa: E731
+VO = lambda q: {"v": str(q), "obj": True}  # noqa: E731
 IA = lambda args, e: {"ia": fn(args, e)}  # noqa: E731
 SUR2 = {"args": ["x"], "outs": ["o1", "o2"], "es": [["+", A(0), K(1)], ["*", A(0), K(3)]],
         "st": [["o2", [["x", {"c": "-1"}]]]]}
@@ -78,18 +108,22 @@ CHOICES = {
                                ["x", None, None], ["nope", None, None], ["p", "2", [["r2", "-1"], ["sf", "2"]]],
                                ["k", None, [["so", "1"]]]],
     "add_parameters": [[[["n1", V(1)], ["n2", V(2)]]], [[["n1", V(1)], ["k", V(2)]]], [[["k", V(1)], ["n1", V(2)]]],
-                       [[["n1", V(1)], ["n2", IA(["n1"], A(0))], ["x", V(1)]]]],
+                       [[["n1", V(1)], ["n2", IA(["n1"], A(0))], ["x", V(1)]]],
+                       [[["n1", VO(1)], ["n2", {**IA(["k"], A(0)), "obj": True}], ["n3", V(2)]]], [[["n1", VO(1)], ["k", VO(2)]]]],
     "remove_parameters": [[["p", "k"]], [["p", "x"]], [["nope", "p"]], [["p", "p"]]],
-    "update_parameters": [[[["k", V(4)], ["p", V(2)]]], [[["k", V(4)], ["x", V(2)]]], [[["nope", V(4)], ["k", V(2)]]]],
+    "update_parameters": [[[["k", V(4)], ["p", V(2)]]], [[["k", V(4)], ["x", V(2)]]], [[["nope", V(4)], ["k", V(2)]]],
+                          [[["k", VO(4)], ["q", VO(2)], ["p", V(1)]]]],
     "scale_parameters": [[[["k", "2"], ["p", "4"]]], [[["k", "2"], ["nope", "2"]]], [[["q", "2"], ["k", "2"]]]],
     "add_variable": [["n1", V(2)], ["x", V(2)], ["k", V(2)], ["sf", V(2)], ["time", V(1)],
                      ["n1", IA(["x", "k"], ["+", A(0), A(1)])], ["dv", V(1)]],
     "remove_variable": [["y", True], ["k", True], ["x", False], ["z", True], ["nope", True], ["x", True], ["dp", False]],
     "update_variable": [["x", V(5)], ["k", V(5)], ["z", V(1)], ["x", IA(["k"], A(0))], ["nope", V(1)]],
     "make_variable_static": [["x", None], ["k", None], ["x", "5"], ["z", None], ["nope", None], ["y", "1/2"]],
-    "add_variables": [[[["n1", V(1)], ["n2", V(2)]]], [[["n1", V(1)], ["x", V(2)]]], [[["k", V(1)], ["n1", V(2)]]]],
+    "add_variables": [[[["n1", V(1)], ["n2", V(2)]]], [[["n1", V(1)], ["x", V(2)]]], [[["k", V(1)], ["n1", V(2)]]],
+                      [[["n1", VO(1)], ["n2", {**IA(["x"], A(0)), "obj": True}]]]],
     "remove_variables": [[["y", "z"], True], [["y", "k"], True], [["nope", "y"], False]],
-    "update_variables": [[[["x", V(4)], ["y", V(1)]]], [[["x", V(4)], ["k", V(2)]]], [[["nope", V(4)], ["x", V(2)]]]],
+    "update_variables": [[[["x", V(4)], ["y", V(1)]]], [[["x", V(4)], ["k", V(2)]]], [[["nope", V(4)], ["x", V(2)]]],
+                         [[["x", VO(4)], ["z", VO(1)]]]],
     "add_derived": [["n1", fn(["x", "k"], ["+", A(0), A(1)])], ["dp", fn(["k"], A(0))], ["n1", fn(["k"], ["*", A(0), K(2)])],
                     ["x", fn(["k"], A(0))], ["n1", fn(["n1"], A(0))], ["n1", fn(["nope"], A(0))], ["time", fn(["k"], A(0))],
                     ["n1", fn(["r1", "sf"], ["+", A(0), A(1)])]],
@@ -108,7 +142,11 @@ CHOICES = {
     "remove_readout": [["ro"], ["x"], ["nope"]],
     "add_surrogate": [["n1", SUR2], ["n1", sur(["o1", "k"])], ["s", SUR2], ["x", SUR2], ["n1", sur(["o1", "o1"])],
                       ["n1", sur(["n1"])], ["n1", sur(["o1", "time"])], ["time", SUR2], ["n1", sur(["o1"], ("dv",), "o1")],
-                      ["n1", sur(["so"])]],
+                      ["n1", sur(["so"])],
+                      # keyword form: args / outputs / stoichiometries override the object's own
+                      ["n1", sur(["so", "sf"]), ["y"], ["o1", "o2"], [["o2", [["x", {"c": "1"}]]]]],
+                      ["n1", sur(["o1", "o2"]), None, ["o1", "k"], None], ["n1", sur(["o1"], ("x",), "o1"), ["x", "y"], None, []],
+                      ["n1", sur(["so"]), None, ["n1"], None]],
     "update_surrogate": [["s", sur(["so", "sf"], ("y",), "sf"), None, None, None], ["s", None, None, ["o8", "o9"], None],
                          ["s", sur(["so", "o9"], ("x",), "o9"), None, None, None], ["s", None, ["y", "x"], None, None],
                          ["s", None, None, None, [["so", [["x", {"c": "1"}]]]]], ["s", sur(["o1", "k"]), None, None, None],
@@ -140,6 +178,19 @@ def pairs(n_q1=None):
                 mid = ([q1] if q1 else []) + [mop, q2]
                 yield {"ops": BASE + mid + BATTERY, "check_from": len(BASE), "stratum": "pair",
                        "shape": f"pair:{mop[0]}"}
+
+
+def pairs2():
+    """the remaining public getters: every mutator x every argument choice x (none | a cache-filling query) x three of
+    QUERIES2 (rotating, so that every getter meets every mutator) followed by the equality query and a short battery"""
+    k = 0
+    for mop in mut_ops():
+        for q1 in (None, QUERIES[k % len(QUERIES)]):
+            qs = [QUERIES2[(k + j * 7) % (len(QUERIES2) - 1)] for j in range(3)]
+            k += 1
+            mid = ([q1] if q1 else []) + [mop] + qs + [["q", "eq"]]
+            yield {"ops": BASE + mid + BATTERY[-2:], "check_from": len(BASE), "stratum": "pair2",
+                   "shape": f"pair2:{mop[0]}"}
 
 
 def triples(rng=None, n=None):
@@ -183,6 +234,7 @@ class Sim:
         return [n for n, _ in self.c[kind]]
 
     def apply(self, op):
+        op = c03spec.effective(op)
         ns = c03spec.Names(self.c)
         from .c03ops import PLURAL, singular_ops
 
@@ -290,6 +342,11 @@ def random_history(rng, length):
             return {"ia": mkfn()}
         return V(rng.choice([1, 2, 3, "1/2", 0, -1]))
 
+    def elval():
+        """element of a plural form: now and then wrapped in a Parameter / Variable object"""
+        v = val()
+        return {**v, "obj": True} if rng.random() < 0.3 else v
+
     def coef():
         if rng.random() < 0.3 and usable():
             return mkfn(1)
@@ -350,12 +407,12 @@ def random_history(rng, length):
             return [m, target("pars"), None if rng.random() < 0.6 else str(rng.choice([1, 5])), stc]
         if m == "add_parameters":
             names = list(dict.fromkeys(newname() for _ in range(rng.choice([1, 2, 3]))))
-            return [m, [[n, val()] for n in names]]
+            return [m, [[n, elval()] for n in names]]
         if m == "remove_parameters":
             return [m, [target("pars") for _ in range(rng.choice([1, 2]))]]
         if m == "update_parameters":
             names = list(dict.fromkeys(target("pars") for _ in range(rng.choice([1, 2, 3]))))
-            return [m, [[n, val()] for n in names]]
+            return [m, [[n, elval()] for n in names]]
         if m == "scale_parameters":
             names = list(dict.fromkeys(target("pars") for _ in range(rng.choice([1, 2]))))
             return [m, [[n, str(rng.choice([2, "1/2"]))] for n in names]]
@@ -369,12 +426,12 @@ def random_history(rng, length):
             return [m, target("vars"), None if rng.random() < 0.6 else str(rng.choice([1, 4]))]
         if m == "add_variables":
             names = list(dict.fromkeys(newname() for _ in range(rng.choice([1, 2, 3]))))
-            return [m, [[n, val()] for n in names]]
+            return [m, [[n, elval()] for n in names]]
         if m == "remove_variables":
             return [m, [target("vars") for _ in range(rng.choice([1, 2]))], rng.random() < 0.8]
         if m == "update_variables":
             names = list(dict.fromkeys(target("vars") for _ in range(rng.choice([1, 2]))))
-            return [m, [[n, val()] for n in names]]
+            return [m, [[n, elval()] for n in names]]
         if m == "add_derived":
             return [m, newname(), mkfn()]
         if m == "update_derived":
@@ -412,6 +469,12 @@ def random_history(rng, length):
         if m == "remove_readout":
             return [m, target("readouts")]
         if m == "add_surrogate":
+            if rng.random() < 0.25:
+                su, su2 = mksur(), mksur()
+                # (the overriding args keep the number of arguments: arity is not the subject here)
+                return [m, newname(), su, pick_args(len(su["args"])) if rng.random() < 0.5 else None,
+                        su2["outs"] if rng.random() < 0.6 and len(su2["outs"]) == len(su["outs"]) else None,
+                        su2["st"] if rng.random() < 0.5 and su2["outs"] == su["outs"] else None]
             return [m, newname(), mksur()]
         if m == "update_surrogate":
             n = target("surs")
@@ -447,8 +510,11 @@ def random_history(rng, length):
         ops.append(op)
         sim.apply(op)
     while len(ops) < length:
-        if rng.random() < 0.35:
-            ops.append(rng.choice(QUERIES + BATTERY))
+        r = rng.random()
+        if r < 0.03:
+            ops.append(["fork"])
+        elif r < 0.35:
+            ops.append(rng.choice(QUERIES + BATTERY + QUERIES2))
         else:
             op = gen_mut()
             ops.append(op)
